@@ -1680,8 +1680,7 @@ async fn controller(scn: Arc<Scenario>, chooser: &mut dyn Chooser) -> (Vec<StepR
         granted = Some(o);
         last = Some(o);
         actions += 1;
-        if msched::with(|c| c.polls) > 200_000 {
-            msched::machinery_error("livelock: more than 200000 polls".into());
+        if msched::with(|c| c.livelock) {
             break;
         }
     }
